@@ -150,8 +150,13 @@ def h_layout(n: int, code: int, same: bool):
     assert (n == 1 and code < 6) or (n == 2 and code < 36) or (n == 3 and code < 216) or (n == 4 and code < 1296) or n == 5
     fresh_path()
     n = ci(n, 1, 5)
-    code = ci(code, 0, 6 ** n - 1)
-    kinds, projs = _dec(code, n)
+    # decode the layout digit by digit: six solver decisions per level (symbolic % and // by a constant) instead of a linear scan over 6**n codes
+    kinds, projs, c = [], [], code
+    for _i in range(n):
+        d_ = ci(c % 6, 0, 5)
+        c = c // 6
+        kinds.append(d_ % 3)
+        projs.append(d_ // 3 == 1)
     if not _valid(kinds, projs):
         discard("layout outside the property (id-like name not below a project's workspace)")
     same = cb(same)
